@@ -20,8 +20,13 @@ def showNode (nd : Node) : String :=
   s!"{showPower nd.power} nic={showBool nd.nic} T={showSvc nd.term.st} UM={showSvc nd.um.st} USM={showSvc nd.usm.st} " ++
   s!"users=[{users}] loc={loc} rem=[{rem}] conns=[{conns}] files=[{files}]"
 
+/-- the blocked directions as a matrix, row = sender: `blk=010/000/000` -/
+def showBlocked (n : Net) : String :=
+  let k := n.nodes.length
+  "/".intercalate ((List.range k).map fun x => String.join ((List.range k).map fun y => showBool (n.blocked.contains (x, y))))
+
 def digest (n : Net) : String :=
-  " ; ".intercalate (n.nodes.map showNode) ++ s!" ; t={n.time} stuck={showBool n.stuck}"
+  " ; ".intercalate (n.nodes.map showNode) ++ s!" ; t={n.time} stuck={showBool n.stuck} blk={showBlocked n}"
 
 def parseSvcName : String → Option SvcName
   | "terminal" => some .terminal | "user-manager" => some .userManager | "user-session-manager" => some .sessionManager
@@ -50,20 +55,23 @@ def parseCmd : List String → Option Cmd
 
 def parseOp : List String → Option Op
   | ["enable", y, u] => do some (.enableUser (← y.toNat?) u)
+  | ["cfguser", y, u, p, a] => do some (.addUserBypass (← y.toNat?) u p (← parseBool a))
   | ["llogin", y, u, p] => do some (.localLogin (← y.toNat?) u p)
   | ["llogout", y] => do some (.localLogout (← y.toNat?))
   | ["tick"] => some .tick
+  | ["block", x, y, on] => do some (.setBlock (← x.toNat?) (← y.toNat?) (← parseBool on))
   | "req" :: y :: rest => do some (.req (← y.toNat?) (← parseCmd rest))
   | _ => none
 
 def stepLine (n : Net) : List String → Net × String
-  | ["new", cnt, su, sd, rd, mx, lto, rto] =>
-    match cnt.toNat?, su.toNat?, sd.toNat?, rd.toNat?, mx.toNat?, lto.toNat?, rto.toNat? with
-    | some cnt, some su, some sd, some rd, some mx, some lto, some rto =>
+  | ["new", cnt, su, sd, rd, mx, lto, rto, hp] =>
+    match cnt.toNat?, su.toNat?, sd.toNat?, rd.toNat?, mx.toNat?, lto.toNat?, rto.toNat?, parseBool hp with
+    | some cnt, some su, some sd, some rd, some mx, some lto, some rto, some hp =>
       let nd : Node := { startDur := su, shutDur := sd, restartDur := rd, maxRemote := mx, localTimeout := lto, remoteTimeout := rto }
-      let n' : Net := { nodes := List.replicate cnt nd }
+      let n' : Net := { nodes := List.replicate cnt nd, hairpin := hp }
       (n', "ok | " ++ digest n')
-    | _, _, _, _, _, _, _ => (n, "bad-op")
+    | _, _, _, _, _, _, _, _ => (n, "bad-op")
+  | ["noop"] => (n, "success | " ++ digest n)
   | ws =>
     match parseOp ws with
     | some op => let (n', o) := step n op; (n', showOut o ++ " | " ++ digest n')
